@@ -724,7 +724,7 @@ def _check_corr(cfg):
                 numpy.random.seed(seed)
                 r1 = non_linear_correlations(data, _learner(cfg["model"]), draws=draws)
             except Exception as e:
-                bad.append(("%s:raises:%s" % (kind, "single-column" if d == 1 else "d>=2"),
+                bad.append(("%s:raises-%s:%s" % (kind, type(e).__name__, "single-column" if d == 1 else "d>=2"),
                             "non_linear_correlations raises %s on a numeric %s with %d column(s)"
                             % (type(e).__name__, "array" if kind == "array" else "DataFrame", d),
                             "%s: %s" % (type(e).__name__, e), "a %d x %d matrix" % (d, d)))
